@@ -571,6 +571,43 @@ def check_record_deletion_joint(ctx, res: Result, cls: str):
         res.ok("P-DELJOINT", cls, "no record deletion outside remove_edge", "scan", "")
 
 
+def check_batch_insert(ctx, res: Result, cls: str):
+    """P-BATCH: add_edges is add_edge repeated - the per-item call is not skipped because the record already exists (a
+    re-insertion still accumulates the weight and replaces the metadata), and every item of the batch reaches it."""
+    if "add_edges" not in ctx.methods(cls) or "add_edge" not in ctx.methods(cls):
+        return
+    v = ctx.view(f"{cls}.add_edges")
+    f = v.fi.short
+    calls = [n for n in walk_no_nested(v.fi.node) if isinstance(n, ast.Call) and isinstance(n.func, ast.Attribute) and is_self_attr(n.func) and n.func.attr == "add_edge"]
+    if not calls:
+        res.unknown("P-BATCH", f, "self.add_edge(...)", "per-item", "the batch insertion does not call add_edge itself", loc(v.fi, v.fi.node))
+        return
+    for c in calls:
+        lps = v.enclosing_all(c, (ast.For, ast.While))
+        if not lps:
+            res.unknown("P-BATCH", f, norm(c)[:100], "per-item", "add_edge is not called in a loop over the batch", _where(v, c))
+            continue
+        lp = lps[0]
+        deciders = [i for i in v.enclosing_all(c, (ast.If,)) if any(i is x for x in ast.walk(lp))]
+        for i_ in ast.walk(lp):
+            if isinstance(i_, ast.If) and i_ not in deciders and i_.lineno < c.lineno and any(isinstance(y, (ast.Continue, ast.Break)) for b_ in i_.body + i_.orelse for y in ast.walk(b_)):
+                deciders.append(i_)
+        bad = None
+        for i_ in deciders:
+            t = v.inline(i_.test)
+            for x in ast.walk(t):
+                if isinstance(x, ast.Compare) and any(isinstance(o, (ast.In, ast.NotIn)) for o in x.ops):
+                    for cmp_ in x.comparators:
+                        if any(tb in ("_edge_list", "_reverse_edge_list", "_weights", "_edge_metadata") for _, tb, _ in v.tables_of(getattr(cmp_, "_orig", cmp_))):
+                            bad = i_
+                if isinstance(x, ast.Call) and isinstance(x.func, ast.Attribute) and x.func.attr == "check_edge":
+                    bad = i_
+        if bad is not None:
+            res.violation("P-BATCH", f, norm(bad.test)[:120], "per-item", "the batch skips (or treats differently) an item whose record already exists: repeating add_edge would still accumulate its weight and replace its metadata, so add_edges no longer agrees with add_edge", _where(v, bad))
+        else:
+            res.ok("P-BATCH", f, norm(c)[:100], "per-item", _where(v, c))
+
+
 # ----------------------------------------------------------------------------- nodes
 def check_add_node(ctx, res: Result, cls: str):
     v = ctx.view(f"{cls}.add_node")
@@ -951,9 +988,26 @@ def check_isolation(ctx, res: Result, cls: str):
             if "get_neighbors" in calls:
                 res.ok("Q-ISO", f, norm(t), "by-neighbours", _where(v, t))
                 decided = True
-            elif tabs or any(c in ("degree", "get_incident_edges", "degree_sequence") for c in calls):
+            elif tabs or any(c in ("degree", "get_incident_edges", "degree_sequence", "degree_distribution") for c in calls):
                 res.violation("Q-ISO", f, norm(t), "by-neighbours", f"isolation is decided from `{txt[:80]}` (incident hyperedges), not from the neighbour set: a node whose hyperedges are all singletons has incident hyperedges but no neighbour", _where(v, t))
                 decided = True
+        # `[node for node, deg in hg.degree_sequence(...).items() if deg == 0]`: a zero test on a degree
+        for n in ast.walk(fi.node):
+            if isinstance(n, ast.Compare) and len(n.ops) == 1 and isinstance(n.ops[0], (ast.Eq, ast.NotEq, ast.Gt, ast.Lt)) and any(isinstance(x, ast.Constant) and x.value == 0 and not isinstance(x.value, bool) for x in (n.left, n.comparators[0])):
+                other = n.comparators[0] if isinstance(n.left, ast.Constant) else n.left
+                src = None
+                if isinstance(other, ast.Name):
+                    # bound by a loop / comprehension over <degrees>.items() / .values(), or assigned from a degree call
+                    for g in ast.walk(fi.node):
+                        if isinstance(g, (ast.For, ast.comprehension)) and any(isinstance(x, ast.Name) and x.id == other.id for x in ast.walk(g.target)):
+                            src = v.inline(g.iter)
+                    if src is None:
+                        src = v.inline(other)
+                else:
+                    src = v.inline(other)
+                if src is not None and any(isinstance(x, ast.Call) and isinstance(x.func, (ast.Attribute, ast.Name)) and norm(x.func).split(".")[-1] in ("degree", "degree_sequence", "degree_distribution") for x in ast.walk(src)):
+                    res.violation("Q-ISO", f, norm(n), "by-neighbours", "isolation is decided from a degree (the number of incident hyperedges), not from the neighbour set: a node whose hyperedges are all singletons has positive degree and no neighbour", _where(v, n))
+                    decided = True
         if depth < 2:
             for n in walk_no_nested(fi.node):
                 if isinstance(n, ast.Call):
